@@ -46,6 +46,7 @@ func init() {
 			{ID: "C09.26", Desc: "every index read and write reachable from RoundTrip uses the result of the URL key function as its key", Run: func(c *Ctx) { ruleIndexKeyIsURLKey(c, "C09.26") }, MinSites: 3},
 			{ID: "C09.27", Desc: "the entry read and the position handed on use the matcher's result as index into the matched list", Run: func(c *Ctx) { ruleLookupPosition(c, "C09.27") }, MinSites: 2},
 			{ID: "C09.28", Desc: "after a 304 the entry's times are those of the validation exchange (it is fresh for its whole new lifetime)", Run: func(c *Ctx) { ruleC08_2(c); renameRule(c, "C08.2", "C09.28") }, MinSites: 1},
+			{ID: "C09.29", Desc: "every field of the entry's meta line is read from the column it is written to (request and response time survive the store in their roles)", Run: func(c *Ctx) { ruleMetaLineColumns(c, "C09.29") }, MinSites: 1},
 		},
 	})
 }
